@@ -7,7 +7,7 @@ import props, manifest_meta as mm
 
 checks = []
 for pid in sorted(props.PROPS):
-    meta = mm.META[pid]
+    meta = props.META[pid]
     checks.append({
         "property_id": pid,
         "quick_cmd": "./check %s --tier quick" % pid,
